@@ -757,3 +757,8 @@ func wireAllProtocols() {
 	kit.Observe("%s role=%d", k.Name, role)
 	kit.Must("Close", func() { _ = s.Close() })
 }
+
+// Bodies re-run by C11 under the race-instrumented build.
+var RaceBodies = map[string]func(){
+	"c16-stalled-handshake-vs-good-peer": stalledVsGood,
+}
